@@ -3,6 +3,7 @@ package main
 // Translation of contract expressions to SMT terms.
 
 import (
+	"strconv"
 	"fmt"
 	"go/types"
 	"sort"
@@ -755,6 +756,100 @@ func (e *Env) call(n *CCall) Val {
 		return Val{S: app("bytes2str", cur, v.S), Sort: "Str", T: types.Typ[types.String]}
 	case "itoa":
 		return Val{S: app("itoa", e.trI(n.Args[0])), Sort: "Str", T: types.Typ[types.String]}
+	case "ncalls", "callarg", "callres":
+		// the contracted calls this activation (and what was inlined into it) has made on the path, in order
+		if e.st == nil || len(n.Args) == 0 {
+			cfail("%s needs a program state and the callee's name", n.Fun)
+		}
+		cs, ok := n.Args[0].(*CStr)
+		if !ok {
+			cfail("%s: the first argument is the callee's name as a string", n.Fun)
+		}
+		lst := e.st
+		if e.cur != nil {
+			lst = e.cur
+		}
+		recs := lst.calls[cs.V]
+		if n.Fun == "ncalls" {
+			if lst.callsLost {
+				return Val{S: e.x.g.fresh("ncalls", "Int"), Sort: "Int", T: types.Typ[types.Int]}
+			}
+			return Val{S: fmt.Sprint(len(recs)), Sort: "Int", T: types.Typ[types.Int]}
+		}
+		if len(n.Args) != 3 {
+			cfail("%s(callee, k, i)", n.Fun)
+		}
+		neg := false
+		a1 := n.Args[1]
+		if u, isU := a1.(*CUnary); isU && u.Op == "-" {
+			neg, a1 = true, u.X
+		}
+		ki, ok1 := a1.(*CInt)
+		ii, ok2 := n.Args[2].(*CInt)
+		if !ok1 || !ok2 {
+			cfail("%s: call ordinal and position must be literals", n.Fun)
+		}
+		k, _ := strconv.Atoi(ki.V)
+		i, _ := strconv.Atoi(ii.V)
+		if k < 0 {
+			neg, k = true, -k
+		}
+		if neg {
+			// -1 = the last call, -2 the one before it ... among the calls made since the last loop cut
+			recs = lst.recent[cs.V]
+			k = len(recs) + 1 - k
+		}
+		if k < 1 || k > len(recs) {
+			// no such call on this path: an arbitrary value of the right type (nothing can be proved about it)
+			var sig *types.Signature
+			for _, pi := range e.w.pkgs {
+				for _, f := range pi.funcs {
+					if logKey(f.String()) == cs.V {
+						sig = f.Signature
+					}
+				}
+			}
+			if sig == nil {
+				cfail("%s: there is no call number %d to %s on this path (%d made) and no such function in the repository", n.Fun, k, cs.V, len(recs))
+			}
+			var vt types.Type
+			if n.Fun == "callres" && i >= 0 && i < sig.Results().Len() {
+				vt = sig.Results().At(i).Type()
+			} else if n.Fun == "callarg" {
+				j := i
+				if sig.Recv() != nil {
+					if j == 0 {
+						vt = sig.Recv().Type()
+					}
+					j--
+				}
+				if vt == nil && j >= 0 && j < sig.Params().Len() {
+					vt = sig.Params().At(j).Type()
+				}
+			}
+			if vt == nil {
+				cfail("%s: %s has no position %d", n.Fun, cs.V, i)
+			}
+			so := e.w.sortOf(vt)
+			return Val{S: e.x.g.fresh("nocall", so), Sort: so, T: vt}
+		}
+		r := recs[k-1]
+		if n.Fun == "callarg" {
+			if i < 0 || i >= len(r.args) {
+				cfail("callarg: %s has no argument %d", cs.V, i)
+			}
+			return r.args[i]
+		}
+		if len(r.res.Tuple) > 0 {
+			if i < 0 || i >= len(r.res.Tuple) {
+				cfail("callres: %s has no result %d", cs.V, i)
+			}
+			return r.res.Tuple[i]
+		}
+		if i != 0 {
+			cfail("callres: %s has one result", cs.V)
+		}
+		return r.res
 	case "fresh":
 		// fresh(x): x points to (is a slice over) an object allocated by this call
 		v := e.tr(n.Args[0])
